@@ -17,7 +17,7 @@ def product_obs(ctx, tdir, ells):
         for ell in ells:
             obs.append(AlgOb("product/%s/ell=%d" % (fn, ell), "q120prod.c", "h_prod", "vf.alg.q120:check_product",
                              params={"form": form, "ell": ell, "primes": PRIMES30}, defs={"FORM": form, "ELL": ell, "FN": fn}, libs=LIBS,
-                             unwind=160, inc=[tdir], family=fn, bit_flags=["--slice-formula"], timeout=600 if ctx.quick else 3000,
+                             unwind=max(160, 40 * ell + 20), inc=[tdir], family=fn, bit_flags=["--slice-formula"], timeout=600 if ctx.quick else 3000,
                              desc="all operand values of the layout symbolic: each output lane == sum x_i*y_i (mod q_k) as a polynomial identity with "
                                   "integer witness; every add/mul/shift of the real code carries a discharged no-wrap side condition"))
     return obs
